@@ -7,6 +7,7 @@ model or is called natively on concrete arguments.  Exploration is exhaustive wi
 ends when the root of the decision tree is exhausted; loops beyond their bound raise BoundExceeded and
 unsupported constructs raise Unsupported - both end the run inconclusive, never as a pass."""
 import hashlib
+import threading
 import ast
 import builtins
 import dataclasses
@@ -110,6 +111,10 @@ class VM:
         self.total_decisions = 0
         self.n_unknown = 0
         self.query_timeout_ms = 10000
+        self.fork_ctl = None          # symvm.forkctl.ForkCtl: fork at two-sided branches instead of re-executing
+        self.on_fork_child = None
+        self.fork_collect = None
+        self.fork_paths = None
         self._helpers = []
         self.begin_path()
         from . import models
@@ -172,6 +177,8 @@ class VM:
             while p is not None and all(k is None or k.done for k in p.kids.values()):
                 p.done = True
                 p = p.parent
+            if self.fork_paths is not None:        # just became a forked child: count only the own subtree
+                paths, infeasible, outcomes, self.fork_paths = 0, 0, {}, None
             if r[0] == 'infeasible':
                 infeasible += 1
                 continue
@@ -181,9 +188,12 @@ class VM:
             outcomes[key] = outcomes.get(key, 0) + 1
             if on_path:
                 on_path(self, PathRec(r, self.decisions, self.unproven, n))
-        return dict(paths=paths, outcomes=outcomes, wall=time.time() - t0, exhausted=self.root.done,
-                    queries=self.nq, solver_s=self.tq, decisions=self.total_decisions, stop=stop,
-                    infeasible_unproven=infeasible, unknown_queries=self.n_unknown)
+        summary = dict(paths=paths, outcomes=outcomes, wall=time.time() - t0, exhausted=self.root.done,
+                       queries=self.nq, solver_s=self.tq, decisions=self.total_decisions, stop=stop,
+                       infeasible_unproven=infeasible, unknown_queries=self.n_unknown)
+        if self.fork_ctl is not None and self.fork_ctl.is_child:
+            self.fork_ctl.child_exit(self.fork_collect(summary) if self.fork_collect else summary)   # does not return
+        return summary
 
     def describe(self, v):
         return type(v).__name__ if not isinstance(v, (bool, type(None), str)) else (v if isinstance(v, str) else repr(v))
@@ -313,6 +323,23 @@ class VM:
                 n.kids[side] = k
             n.model = None
             n.expanded = True
+            kt, kf = n.kids[True], n.kids[False]
+            if self.fork_ctl is not None and kt is not None and kf is not None and threading.active_count() == 1:
+                role = self.fork_ctl.fork()
+                if role == 'parent':
+                    kf.done = True                 # that subtree now belongs to the child
+                elif role == 'child':
+                    kt.done = True
+                    a = n
+                    while a.parent is not None:    # everything outside the subtree belongs to somebody else
+                        for kid in a.parent.kids.values():
+                            if kid is not None and kid is not a:
+                                kid.done = True
+                        a = a.parent
+                    self.nq, self.tq, self.total_decisions, self.n_unknown = 0, 0.0, 0, 0
+                    self.fork_paths = 0
+                    if self.on_fork_child:
+                        self.on_fork_child()
         self.decisions += 1
         for side in (True, False):
             k = n.kids[side]
@@ -405,6 +432,32 @@ class VM:
 
     def note(self, *a):
         self.notes.append(a)
+
+    # non-forking boolean combinators for harness oracles (a conjunction of many symbolic facts costs one decision)
+    def _b(self, x):
+        if isinstance(x, SBool):
+            return x.e
+        if isinstance(x, Sym):
+            return zbool(mk_bool(zint(x) != 0)) if isinstance(x, SInt) else self._b(self.truth(x))
+        return z3.BoolVal(bool(x))
+
+    def all_of(self, conds):
+        return mk_bool(z3.And([self._b(c) for c in conds]))
+
+    def any_of(self, conds):
+        return mk_bool(z3.Or([self._b(c) for c in conds]))
+
+    def not_(self, c):
+        return mk_bool(z3.Not(self._b(c)))
+
+    def implies(self, a, b):
+        return mk_bool(z3.Or(z3.Not(self._b(a)), self._b(b)))
+
+    def ite(self, c, a, b):
+        """Value selection without forking (ints only)."""
+        if not isinstance(c, SBool):
+            return a if c else b
+        return mk_int(z3.If(c.e, zint(a), zint(b)))
 
     native = False
 
@@ -785,8 +838,9 @@ class VM:
             return m(self, args, kwargs)
         if isinstance(fn, InterpFunction):
             return self.call_interp(fn.node, fn.frame.glob, fn.frame, fn.defaults, fn.kwdefaults, args, kwargs, None)
-        if isinstance(fn, types.MethodType) and isinstance(fn.__self__, VM):
-            return fn(*args, **kwargs)
+        if isinstance(fn, types.MethodType) and (isinstance(fn.__self__, VM) or
+                                                 (type(fn.__self__).__module__ or '').startswith('symvm.')):
+            return fn(*args, **kwargs)          # framework helpers (scheduler, ideal functions) run natively
         if isinstance(fn, types.MethodType):
             f = fn.__func__
             if self.is_interp_callable(f):
@@ -1078,6 +1132,7 @@ class VM:
     # ------------------------------------------------------------ statements
     def exec_block(self, body, f):
         for st in body:
+            self.loc = st
             getattr(self, 'x_' + type(st).__name__, self.x_unsupported)(st, f)
 
     def x_unsupported(self, st, f):
@@ -1600,6 +1655,8 @@ class VM:
             return mk_int(x / (1 << b))
         if t is ast.BitAnd:
             c, s = (b, a) if is_sym(a) and not is_sym(b) else (a, b) if not is_sym(a) else (None, None)
+            if c is not None and c >= 0 and isinstance(s, SInt) and s.bv and c < (1 << s.bv[1]):
+                return self.bv_binop(t, a, b)          # stays in the bit-vector domain (ids)
             if c is not None and c >= 0:
                 if c & (c + 1) == 0:  # low mask 2^k-1
                     return mk_int(zint(s) % (c + 1))
